@@ -185,7 +185,7 @@ func c18(r *simk.Run) *simk.Violation {
 		}
 
 		// ---- victim
-		a := 1 + c.Intn(n)    // the engine's a-th Accept is in flight (or has just returned) at the crash
+		a := 1 + c.Intn(n)     // the engine's a-th Accept is in flight (or has just returned) at the crash
 		j1 := c.Intn(10*a + 2) // accepter scheduling steps granted while blocks 1..a-1 are accepted
 		j2 := c.Intn(120)      // scheduling steps of the whole node (engine thread and accepter, incl. every
 		//                        durable write) granted while block a is parsed, verified and accepted
